@@ -137,6 +137,28 @@ class Templates:
                     os.link(os.path.join(tobj, sub, f), os.path.join(d, "objects", sub, f))
         fx = fixture()
         packed = []
+        if layout == "reftable":
+            # the other ref backend a server repository can be configured with (extensions.refStorage):
+            # the initial refs are written through the backend itself, before observation starts
+            from dulwich.repo import Repo
+            r = Repo(d)
+            cfg = r.get_config()
+            cfg.set((b"core",), b"repositoryformatversion", b"1")
+            cfg.set((b"extensions",), b"refStorage", b"reftable")
+            cfg.write_to_path()
+            r.close()
+            r = Repo(d)
+            try:
+                if type(r.refs).__name__ != "ReftableRefsContainer":
+                    raise RuntimeError("repository did not open with the reftable backend")
+                for idx, v in enumerate(refs0):
+                    if v:
+                        r.refs.set_if_equals(REFNAMES[idx], None, fx.sha[v])
+                if keep and store0:
+                    r.refs.set_if_equals(b"refs/heads/zz-keep", None, fx.sha[sorted(store0)[0]])
+            finally:
+                r.close()
+            return d
         for idx, v in enumerate(refs0):
             if not v:
                 continue
@@ -166,7 +188,21 @@ class Templates:
 
 # --------------------------------------------------------------------------- observation
 def read_ref_file(root, name):
-    """Value of a ref read straight from the files (loose first, then packed-refs)."""
+    """Value of a ref read straight from the files (loose first, then packed-refs).  A repository
+    with the reftable backend is read through a fresh container (its read path shares nothing with
+    the compare-and-swap operations under observation)."""
+    if os.path.isfile(os.path.join(root, "reftable", "tables.list")):
+        from dulwich.reftable import ReftableRefsContainer
+        c = ReftableRefsContainer(root)
+        try:
+            v = c.read_ref(name)
+        finally:
+            close = getattr(c, "close", None)
+            if close:
+                close()
+        if v is None or v.startswith(b"ref: "):
+            return None
+        return v
     try:
         with sched._real.get("builtins.open", open)(os.path.join(root, os.fsdecode(name)), "rb") as f:
             data = f.read().strip()
@@ -292,8 +328,12 @@ def install():
         return
     from dulwich.object_store import DiskObjectStore
     from dulwich.refs import DiskRefsContainer
+    try:
+        from dulwich.reftable import ReftableRefsContainer
+    except Exception:      # a tree without the reftable backend
+        ReftableRefsContainer = None
 
-    def wrap_refop(kind):
+    def wrap_refop(kind, DiskRefsContainer=DiskRefsContainer):
         orig = getattr(DiskRefsContainer, kind)
 
         def w(self, name, *a, **kw):
@@ -338,6 +378,8 @@ def install():
 
     for kind in ("set_if_equals", "remove_if_equals", "add_if_new"):
         wrap_refop(kind)
+        if ReftableRefsContainer is not None:
+            wrap_refop(kind, ReftableRefsContainer)
 
     def wrap_unpack(name):
         orig = getattr(DiskObjectStore, name)
